@@ -202,7 +202,7 @@ def c03_tables(R):
         return [p for p in positional_params(fn) if p != "self"]
 
     # ---- concrete
-    fn = conc.handler("StrContains").fn
+    fn = util.resolve_locals(conc.handler("StrContains").fn)
     ps = P(fn)
     ret = next(r.value for r in walk_no_nested(fn) if isinstance(r, ast.Return))
     R.check(
@@ -210,7 +210,7 @@ def c03_tables(R):
         and ast.unparse(ret.left) == f"{ps[1]}.value" and ast.unparse(ret.comparators[0]) == f"{ps[0]}.value",
         m, fn, "StrContains(s, sub): sub in s", f"concrete StrContains returns `{norm(ret)}`; expected `{ps[1]}.value in {ps[0]}.value`",
     )
-    fn = conc.handler("StrReplace").fn
+    fn = util.resolve_locals(conc.handler("StrReplace").fn)
     ps = P(fn)
     calls = [c for c in ast.walk(fn) if isinstance(c, ast.Call) and isinstance(c.func, ast.Attribute) and c.func.attr == "replace"]
     ok = (
@@ -220,11 +220,11 @@ def c03_tables(R):
     )
     R.check(ok, m, fn, "StrReplace(s, old, new): first occurrence only",
             f"concrete StrReplace computes `{norm(calls[0]) if calls else None}`; expected {ps[0]}.value.replace({ps[1]}.value, {ps[2]}.value, 1)")
-    fn = conc.handler("StrLen").fn
+    fn = util.resolve_locals(conc.handler("StrLen").fn)
     ps = P(fn)
     ret = next(r.value for r in walk_no_nested(fn) if isinstance(r, ast.Return))
     R.check(ast.unparse(ret) == f"BVV(len({ps[0]}.value), 64)", m, fn, "StrLen: len at 64 bits", f"concrete StrLen returns `{norm(ret)}`")
-    fn = conc.handler("StrSubstr").fn
+    fn = util.resolve_locals(conc.handler("StrSubstr").fn)
     ps = P(fn)
     subs = [n for n in ast.walk(fn) if isinstance(n, ast.Subscript) and isinstance(n.slice, ast.Slice)]
     ok = (
@@ -236,18 +236,18 @@ def c03_tables(R):
     )
     R.check(ok, m, fn, "StrSubstr(start, count, s): s[start : start + count]",
             f"concrete StrSubstr slices `{norm(subs[0]) if subs else None}`")
-    fn = conc.handler("StrConcat").fn
+    fn = util.resolve_locals(conc.handler("StrConcat").fn)
     joins = [c for c in ast.walk(fn) if isinstance(c, ast.Call) and isinstance(c.func, ast.Attribute) and c.func.attr == "join"]
     ok = len(joins) == 1 and isinstance(joins[0].func.value, ast.Constant) and joins[0].func.value.value == "" and "reversed" not in ast.unparse(joins[0]) and "[::-1]" not in ast.unparse(joins[0])
     R.check(ok, m, fn, "StrConcat: ''.join in argument order", f"concrete StrConcat computes `{norm(joins[0]) if joins else None}`")
     for op in ("StrIndexOf", "StrToInt"):
-        fn = conc.handler(op).fn
+        fn = util.resolve_locals(conc.handler(op).fn)
         fails = [r.value for r in walk_no_nested(fn) if isinstance(r, ast.Return) and r.value is not None and "-1" in ast.unparse(r.value)]
         R.check(
             fails and all(ast.unparse(f) == "BVV(-1, 64)" for f in fails),
             m, fn, f"{op}: failure is -1 at 64 bits", f"concrete {op}: failure value is {[norm(f) for f in fails]}",
         )
-    fn = conc.handler("StrIndexOf").fn
+    fn = util.resolve_locals(conc.handler("StrIndexOf").fn)
     ps = P(fn)
     idx = [c for c in ast.walk(fn) if isinstance(c, ast.Call) and isinstance(c.func, ast.Attribute) and c.func.attr in ("index", "find")]
     R.check(
@@ -256,13 +256,13 @@ def c03_tables(R):
         m, fn, "StrIndexOf(s, pat, start): searches pat inside s",
         f"concrete StrIndexOf searches `{norm(idx[0]) if idx else None}`",
     )
-    fn = conc.handler("IntToStr").fn
+    fn = util.resolve_locals(conc.handler("IntToStr").fn)
     ps = P(fn)
     ret = next(r.value for r in walk_no_nested(fn) if isinstance(r, ast.Return))
     R.check(ast.unparse(ret) == f"StringV(str({ps[0]}.value))", m, fn, "IntToStr: decimal of the unsigned value",
             f"concrete IntToStr returns `{norm(ret)}`")
     for op, meth in (("StrPrefixOf", "startswith"), ("StrSuffixOf", "endswith")):
-        fn = conc.handler(op).fn
+        fn = util.resolve_locals(conc.handler(op).fn)
         ps = P(fn)
         calls = [c for c in ast.walk(fn) if isinstance(c, ast.Call) and isinstance(c.func, ast.Attribute) and c.func.attr == meth]
         rex = [c for c in ast.walk(fn) if isinstance(c, ast.Call) and (dotted(c.func) or "").startswith("re.")]
